@@ -54,7 +54,10 @@ layout = st.one_of(
 
 case_strategy = st.fixed_dictionaries({
     "centre": centre,
-    "eps_arcmin": f(math.log10(1 / 60.0), math.log10(120.0)).map(lambda e: 10 ** e),
+    # log-uniform 1 arcsec .. 2 deg, plus fixed values so that arcsecond linking lengths (where single-precision or
+    # small-angle shortcuts show) are always well represented
+    "eps_arcmin": st.one_of(f(math.log10(1 / 60.0), math.log10(120.0)).map(lambda e: 10 ** e),
+                            st.sampled_from([1 / 60.0, 2 / 60.0, 5 / 60.0, 0.25, 1.0, 4.0, 60.0, 120.0])),
     "layout": layout,
     "perm_seed": st.integers(0, 2 ** 31 - 1),
 })
